@@ -39,6 +39,9 @@ def violations(deflate):
     v["orphan-continuation"] = lambda s: s.frame(True, 0, b"x")
     v["orphan-continuation-nonfinal"] = lambda s: s.frame(False, 0, b"x")
     v["data-inside-fragmented"] = lambda s: s.frame(False, 1, b"ab") + s.frame(True, 1, b"cd")
+    v["data-inside-empty-fragmented"] = lambda s: s.frame(False, 1, b"") + s.frame(True, 1, b"cd")
+    v["data-inside-empty-fragmented-then-continuation"] = lambda s: (s.frame(False, 2, b"") + s.frame(True, 2, b"cd")
+                                                                    + s.frame(True, 0, b"ef"))
     v["binary-inside-fragmented"] = lambda s: s.frame(False, 2, b"ab") + s.frame(False, 2, b"cd")
     v["invalid-utf8"] = lambda s: s.frame(True, 1, b"ab\xff")
     v["invalid-utf8-truncated-char"] = lambda s: s.frame(True, 1, b"ab\xc3")
@@ -75,19 +78,22 @@ def valid_message(s, i, deflate):
     return s.frame(True, 1, payload), text
 
 
-def open_session(w, role, deflate):
+def open_session(w, role, deflate, limit=LIMIT):
     if role == "server":
         return wsh.ServerSession(w, offer="permessage-deflate" if deflate else None,
                                  compression_options={} if deflate else None,
-                                 settings={"websocket_max_message_size": LIMIT})
+                                 settings={"websocket_max_message_size": limit})
     return wsh.ClientSession(w, compression_options={} if deflate else None,
                              response_ext="permessage-deflate" if deflate else None,
-                             connect_kwargs={"max_message_size": LIMIT})
+                             connect_kwargs={"max_message_size": limit})
 
 
 def run_case(role, deflate, vname, nbefore, nafter, separately, boundary=False):
     with World() as w:
-        s = open_session(w, role, deflate)
+        # over-long control frames must be refused because they are control frames, not because they
+        # exceed max_message_size: run them with a generous message limit
+        big = (not boundary) and vname.endswith("-126")
+        s = open_session(w, role, deflate, 4096 if big else LIMIT)
         if role == "client" and not hasattr(s, "mask"):
             s.mask = None
         try:
